@@ -19,6 +19,7 @@ SCENARIOS = [  # (workers, scripts, mode, spurious budget)
     (1, [[1]], 0, 0), (1, [[1, 2]], 1, 0), (1, [[1, 2]], 0, 1), (1, [[1], [2]], 0, 0), (2, [[1, 2]], 0, 0),
     (2, [[1, 2], [3]], 0, 0), (2, [[1, 2, 3]], 1, 0), (2, [[1, 2]], 0, 1), (3, [[1, 2], [3, 4]], 0, 0), (3, [[1, 2], [3, 4]], 1, 1),
     (1, [], 1, 0), (2, [], 1, 1),
+    (2, [[1, 2]], 2, 0), (2, [[1], [2]], 2, 0), (3, [[1, 2, 3]], 2, 0), (2, [[1, 2, 3, 4]], 2, 0),      # rendezvous jobs
 ]
 
 
@@ -94,7 +95,7 @@ def judge(r, workers, scripts, mode):
             pos = [begun.index(i) for i in sc if i in begun]
             if pos != sorted(pos):
                 return ("c15:explore:order", "items of one producer handled out of dispatch order: %r" % begun, None)
-    if mode == 0 and r["done"] and r["handled"] != r["total"]:
+    if mode in (0, 2) and r["done"] and r["handled"] != r["total"]:
         return ("c15:explore:unhandled", "owner waited for completion, yet only %d of %d items were handled" % (r["handled"], r["total"]), None)
     if not r["done"]:
         return ("c15:explore:no_termination", "the destructor has not returned after the step budget", None)
